@@ -84,6 +84,14 @@ def regenerate(only=None, pin=False) -> dict:
             except FileNotFoundError:
                 drift = True
         status[g] = {"status": st, "rewritten": changed, "differs_from_pinned": drift}
+    # additive hook (C02): communication skeleton of SubprocVecEnv -> Gen/Frag_Subproc.v (translate/skeleton.py)
+    if not only or "Subproc" in only:
+        try:
+            from translate import skeleton
+        except ImportError:
+            skeleton = None
+        if skeleton is not None:
+            status["Subproc"] = skeleton.regenerate(pin=pin)
     return status
 
 
